@@ -58,7 +58,7 @@ def countNamed (h : Heap) (l : List Nat) (name : String) : Nat :=
   (l.filter (fun i => match h[i]? with | some n => n.name == name | none => false)).length
 
 /-- the admission checks of `_can_add_child` once the child points at the parent -/
-def admit (p c : Nat) : Op Unit := fun h =>
+def admission (p c : Nat) : Op Unit := fun h =>
   match h[p]?, h[c]? with
   | some pn, some cn =>
     if R.strict pn && ((countNamed h pn.list cn.name : Int) + 1 > R.maxRep pn cn.name) && (R.maxRep pn cn.name > -1) then (h, .error .maxChild)
@@ -72,73 +72,140 @@ def validCheck (p c : Nat) : Op Unit := fun h =>
   | some pn, some cn => if R.valid pn cn then (h, .ok ()) else (h, .error .childNotValid)
   | _, _ => (h, .error .crash)
 
-/-- `list.append(child)` unless it is already listed (repair of D8) -/
-def push (p c : Nat) : Op Unit := upd p fun n => if n.list.contains c then n else { n with list := n.list ++ [c], tidx := n.tidx.erase c }
+/-! ### pure single-node updates -/
+
+def modify (i : Nat) (f : Node → Node) (h : Heap) : Heap :=
+  match h[i]? with | some n => h.set i (f n) | none => h
+
+/-- `child._parent, child._traversal_parent = a, b` -/
+def setPtr (c : Nat) (par tpar : Option Nat) (h : Heap) : Heap := modify c (fun n => { n with parent := par, tparent := tpar }) h
+
+/-- `list.append(child)` unless it is already listed (repair of D8); a promoted traversal child leaves the traversal index -/
+def pushList (p c : Nat) (h : Heap) : Heap :=
+  modify p (fun n => if n.list.contains c then n else { n with list := n.list ++ [c], tidx := n.tidx.erase c }) h
+
+def eraseList (p c : Nat) (h : Heap) : Heap := modify p (fun n => { n with list := n.list.erase c }) h
+
+def insertList (p c li : Nat) (h : Heap) : Heap :=
+  modify p (fun n => { n with list := n.list.take li ++ c :: n.list.drop li }) h
 
 /-- remove `c` from the child list of its previous parent `q` (repair of D8: one parent only) -/
-def detachFrom (q : Option Nat) (p c : Nat) : Op Unit :=
+def detach (q : Option Nat) (p c : Nat) (h : Heap) : Heap :=
   match q with
-  | some q => if q = p then Op.pure () else upd q fun n => { n with list := n.list.erase c }
-  | none => Op.pure ()
+  | some q => if q = p then h else eraseList q c h
+  | none => h
 
 /-- `ElementList.append(child)` -/
-def append (p c : Nat) : Op Unit := do
-  validCheck R p c
-  let cn ← getNode c
-  if cn.parent ≠ some p ∧ cn.tparent ≠ some p then
-    -- `child.parent = element`: pointer first, then `element.add(child)` → admission → list
-    upd c fun n => { n with parent := some p, tparent := none }
-    fun h => match admit R p c h with
-      | (h', .ok ()) => (push p c >>= fun _ => detachFrom cn.parent p c) h'
-      | (h', .error e) =>
-        -- refused: the previous pointers are restored (repair of D9b)
-        ((upd c fun n => { n with parent := cn.parent, tparent := cn.tparent }) h').1 |> fun h'' => (h'', .error e)
-  else do
-    admit R p c
-    if cn.parent = some p then push p c
-    else upd p fun n => { n with tidx := n.tidx ++ [c] }
+def append (p c : Nat) : Op Unit := fun h =>
+  match (validCheck R p c h).2 with
+  | .error e => (h, .error e)
+  | .ok _ =>
+    match h[c]? with
+    | none => (h, .error .crash)
+    | some cn =>
+      if cn.parent ≠ some p ∧ cn.tparent ≠ some p then
+        -- `child.parent = element`: pointer first, then `element.add(child)` → admission → list
+        let h1 := setPtr c (some p) none h
+        match (admission R p c h1).2 with
+        | .ok _ => (detach cn.parent p c (pushList p c h1), .ok ())
+        | .error e => (setPtr c cn.parent cn.tparent h1, .error e)     -- refused: pointers restored (repair of D9b)
+      else
+        match (admission R p c h).2 with
+        | .error e => (h, .error e)
+        | .ok _ =>
+          if cn.parent = some p then (pushList p c h, .ok ())
+          else (modify p (fun n => { n with tidx := n.tidx ++ [c] }) h, .ok ())
 
-/-- `ElementList.insert(index, child)` (repair of D7: the position is kept) -/
-def insertAt (p c li : Nat) : Op Unit := do
+/-- a traversal child that becomes a real child leaves the traversal index (repair of D25) -/
+def untrav (t : Option Nat) (p c : Nat) (h : Heap) : Heap :=
+  if t = some p then modify p (fun n => { n with tidx := n.tidx.erase c }) h else h
+
+/-- `ElementList.insert(index, child)` (repair of D7: the position is kept; of D25: a traversal child is attached) -/
+def insertAt (p c li : Nat) : Op Unit := fun h0 =>
   -- a child the element already lists is moved, never listed twice
-  upd p fun n => { n with list := n.list.erase c }
-  let cn ← getNode c
-  if cn.parent ≠ some p ∧ cn.tparent ≠ some p then
-    validCheck R p c
-    upd c fun n => { n with parent := some p, tparent := none }
-    fun h => match admit R p c h with
-      | (h', .ok ()) =>
-        -- detach from the previous parent first (repair of D8), then insert at the index
-        (detachFrom cn.parent p c >>= fun _ => upd p fun n => { n with list := n.list.take li ++ c :: n.list.drop li }) h'
-      | (h', .error e) => ((upd c fun n => { n with parent := cn.parent, tparent := cn.tparent }) h').1 |> fun h'' => (h'', .error e)
-  else do
-    validCheck R p c
-    admit R p c
-    upd p fun n => { n with list := n.list.take li ++ c :: n.list.drop li }
+  let h := eraseList p c h0
+  match h[c]? with
+  | none => (h, .error .crash)
+  | some cn =>
+    match (validCheck R p c h).2 with
+    | .error e => (h, .error e)
+    | .ok _ =>
+      if cn.parent ≠ some p then
+        let h1 := setPtr c (some p) none h
+        match (admission R p c h1).2 with
+        | .ok _ => (insertList p c li (detach cn.parent p c (untrav cn.tparent p c h1)), .ok ())
+        | .error e => (setPtr c cn.parent cn.tparent h1, .error e)
+      else
+        match (admission R p c h).2 with
+        | .error e => (h, .error e)
+        | .ok _ => (insertList p c li h, .ok ())
 
 /-- `ElementList.remove(child)` -/
-def remove (p c : Nat) : Op Unit := do
-  let cn ← getNode c
-  let pn ← getNode p
-  if cn.tparent = some p then upd p fun n => { n with tidx := n.tidx.erase c }
-  else if pn.list.contains c then upd p fun n => { n with list := n.list.erase c }
-  else fail .crash        -- `list.remove(x)`: ValueError
+def remove (p c : Nat) : Op Unit := fun h =>
+  match h[c]?, h[p]? with
+  | some cn, some pn =>
+    if cn.tparent = some p then (modify p (fun n => { n with tidx := n.tidx.erase c }) h, .ok ())
+    else if pn.list.contains c then (eraseList p c h, .ok ())
+    else (h, .error .crash)        -- `list.remove(x)`: ValueError
+  | _, _ => (h, .error .crash)
 
 /-- `ElementList.replace_child(old, new)` (repair of D9a: the old child is put back when the new one is refused) -/
-def replaceChild (p old new : Nat) : Op Unit := do
-  let pn ← getNode p
-  let on ← getNode old
-  if on.tparent = some p then do
-    remove p old
-    append R p new
-  else
-    let li := pn.list.idxOf old
-    fun h => match remove p old h with
-      | (h1, .ok ()) =>
-        match insertAt R p new li h1 with
-        | (h2, .ok ()) => (h2, .ok ())
-        | (h2, .error e) => ((upd p fun n => { n with list := n.list.take li ++ old :: n.list.drop li }) h2).1 |> fun h3 => (h3, .error e)
+def replaceChild (p old new : Nat) : Op Unit := fun h =>
+  match h[p]?, h[old]? with
+  | some pn, some on =>
+    if on.tparent = some p then
+      match remove p old h with
+      | (h1, .ok _) => append R p new h1
       | (h1, .error e) => (h1, .error e)
+    else
+      let li := pn.list.idxOf old
+      match remove p old h with
+      | (h1, .ok _) =>
+        match insertAt R p new li h1 with
+        | (h2, .ok _) => (h2, .ok ())
+        | (h2, .error e) => (insertList p old li h2, .error e)
+      | (h1, .error e) => (h1, .error e)
+  | _, _ => (h, .error .crash)
+
+/-- `child.parent = p` — the public setter (repair of D26: refused ⇒ pointers restored; accepted ⇒ the previous
+    parent no longer lists the child) -/
+def setParent (p c : Nat) : Op Unit := fun h =>
+  match h[c]? with
+  | none => (h, .error .crash)
+  | some cn =>
+    match append R p c (setPtr c (some p) none h) with
+    | (h2, .ok _) => (detach cn.parent p c h2, .ok ())
+    | (h2, .error e) => (setPtr c cn.parent cn.tparent h2, .error e)
+
+/-- `child.parent = None` -/
+def unsetParent (c : Nat) : Op Unit := fun h =>
+  match h[c]? with
+  | none => (h, .error .crash)
+  | some cn =>
+    let h1 := modify c (fun n => { n with parent := none }) h
+    match cn.parent with
+    | some q => (eraseList q c h1, .ok ())
+    | none => (h1, .ok ())
+
+/-- `child.traversal_parent = p` — internal setter used when a traversal child is created: pointer, then `p.add(child)` -/
+def setTrav (p c : Nat) : Op Unit := fun h =>
+  match h[c]? with
+  | none => (h, .error .crash)
+  | some cn => append R p c (setPtr c cn.parent (some p) h)
+
+/-- `set_parent_to_traversal()`: the first write promotes the chain of traversal children, leaf first -/
+def promote : Nat → Nat → Op Unit
+  | 0, _ => fun h => (h, .ok ())
+  | fuel + 1, c => fun h =>
+    match h[c]? with
+    | none => (h, .error .crash)
+    | some cn =>
+      match cn.tparent, cn.parent with
+      | some p, none =>
+        match setParent R p c h with
+        | (h1, .ok _) => promote fuel p h1
+        | (h1, .error e) => (h1, .error e)
+      | _, _ => (setPtr c cn.parent none h, .ok ())
 
 def listOf (h : Heap) (p : Nat) : List Nat := match h[p]? with | some n => n.list | none => []
 def parentOf (h : Heap) (c : Nat) : Option Nat := match h[c]? with | some n => n.parent | none => none
